@@ -179,7 +179,7 @@ def run_concat(run: Run, scen: dict, rng: random.Random):
 
 
 def check(run: Run, tier: str, seed: int):
-    n = 90 if tier == "quick" else 1200
+    n = 180 if tier == "quick" else 1200
     for i in range(n):
         cls, opts, semirings = CLASSES[i % len(CLASSES)]
         srng = random.Random(f"C06-{seed}-{i}")
